@@ -103,17 +103,18 @@ func init() {
 				Run: func(w *fw.W) { w.Each(len(cuts), func(i int) { w.Item(cuts[i], "") }) }, Eval: evalC13},
 			{Name: "grammar-vectors", Space: "every base vector of the C04 grammar (every black tag / event / URL attribute x scheme / markup form) as written", Share: 2,
 				Run: func(w *fw.W) { v := c04Vectors(false); w.Each(len(v), func(i int) { w.Item(v[i], "") }) }, Eval: evalC13},
-			{Name: "long-inputs", Space: "every 40th grammar vector padded before / after with 70 000 and 1 100 000 bytes (size-dependent paths)", Share: 2,
+			{Name: "long-inputs", Space: "every 200th (quick) / 40th (thorough) grammar vector padded before / after with 70 000 and 1 100 000 bytes (size-dependent paths)", Share: 2,
 				Run: func(w *fw.W) {
 					v := c04Vectors(false)
 					pads := []int{70000, 1100000}
-					w.Each(len(v)/40+1, func(i int) {
-						if i*40 >= len(v) {
+					step := w.Pick(200, 40)
+					w.Each(len(v)/step+1, func(i int) {
+						if i*step >= len(v) {
 							return
 						}
 						for _, n := range pads {
-							w.Item(v[i*40]+strings.Repeat("a", n), "")
-							w.Item(strings.Repeat("a ", n/2)+v[i*40], "")
+							w.Item(v[i*step]+strings.Repeat("a", n), "")
+							w.Item(strings.Repeat("a ", n/2)+v[i*step], "")
 						}
 					})
 				}, Eval: evalC13},
